@@ -175,10 +175,29 @@ class Engine:
         self.ob_seq[base] = n + 1
         return base if n == 0 else '%s#%d' % (base, n)
 
-    def prove(self, st, goal, kind, line, tag='', text='', stable_name=None):
-        """Record and discharge an obligation; afterwards the goal is assumed on the path."""
+    def prove(self, st, goal, kind, line, tag='', text='', stable_name=None, defer=None):
+        """Record and discharge an obligation; afterwards the goal is assumed on the path.  With
+        `defer` (a list) the goal is appended there instead: clauses that stand at the same program
+        point (the asserts / preconditions of one call, the postconditions of one exit, the asserts of
+        one yield) are each proved from the same facts - never from a sibling clause, which may carry
+        another property's tag and be refuted - and assumed together by the caller afterwards."""
         if z3.is_true(goal):
             return
+        if defer is not None:
+            class _Hold:
+                pc = st.pc
+                last_line = getattr(st, 'last_line', '?')
+
+                @staticmethod
+                def assume(g):
+                    defer.append(g)
+            real_st = st
+            hold = _Hold()
+            return self._prove(real_st, hold, goal, kind, line, tag, text, stable_name)
+        return self._prove(st, st, goal, kind, line, tag, text, stable_name)
+
+    def _prove(self, real_st, st, goal, kind, line, tag, text, stable_name):
+        real = real_st
         name = stable_name or ('%s:%s%s@L%s' % (self.cur_fn.split(':')[1], kind,
                                                  (':' + tag) if tag else '', line))
         for old in self.results:
@@ -191,7 +210,7 @@ class Engine:
                 # counterexample on the further paths with a short budget instead of the full ladder
                 verdict, backend, ms, info = solve.prove(st.pc, goal, timeout_ms=1500, quick=True)
                 if verdict == 'refuted':
-                    model = self.model_to_json(info, st)
+                    model = self.model_to_json(info, real)
                     self.merge_result(ObResult(name, kind, self.cur_fn, line, verdict, backend, ms, None, model,
                                                prop=(getattr(self, 'clause_props', None) or
                                                      (self.cur_contract.prop if self.cur_contract else ())), text=text))
@@ -203,7 +222,7 @@ class Engine:
         model = None
         candidate = None
         if verdict == 'refuted':
-            model = self.model_to_json(info, st)
+            model = self.model_to_json(info, real)
             info = None
         elif verdict == 'undecided' and kind in ('post', 'post-exc', 'noraise'):
             # not a verdict: an input that satisfies the quantifier-free part of the path condition and
@@ -212,7 +231,7 @@ class Engine:
             try:
                 cm = solve.candidate(st.pc, goal)
                 if cm is not None:
-                    candidate = self.model_to_json(cm, st)
+                    candidate = self.model_to_json(cm, real)
             except Exception:
                 candidate = None
         r_ = ObResult(name, kind, self.cur_fn, line, verdict, backend, ms, info,
@@ -1260,6 +1279,10 @@ class Engine:
         rn = z3.Length(r.e)
         st.assume((rn == 0) == blank)
         st.assume(z3.Implies(n == 0, blank))
+        if getattr(self, 'blank_axiom', False):
+            # valid fact (consequence of s = p ++ r ++ q with p, q in C*): a string made of strippable
+            # characters only strips to the empty string
+            st.assume(z3.Implies(z3.InRe(s.e, z3.Star(self.ws_re(cs))), blank))
         st.assume(rn <= n)
         first = z3.SubString(r.e, 0, 1)
         last = z3.SubString(r.e, rn - 1, 1)
